@@ -57,9 +57,11 @@ def run(ctx):
     rot3 = [(0, 1, 2), (1, 2, 0), (2, 0, 1)]
     flip = lambda p: (p[0], p[2], p[1])
     nconf = 0
-    for both_flipped in (False, True):
-        for ra in rot3:
-            for rb in rot3:
+    for both_flipped, ra, rb, swapped in [(bf_, ra_, rb_, None) for bf_ in (False, True) for ra_ in rot3 for rb_ in rot3] + [(False, rot3[0], rot3[0], [1]), (False, rot3[1], rot3[2], [1])]:
+        if True:
+            if True:
+                skw = {} if swapped is None else {"swapped_normals": swapped}
+                fam_ = "conformity" if swapped is None else "conformity_swapped"
                 ta, tb = [0, 1, 2], [1, 3, 2]  # consistently oriented pair sharing edge (1, 2)
                 if both_flipped:
                     ta, tb = list(flip(ta)), list(flip(tb))
@@ -67,7 +69,7 @@ def run(ctx):
                 eb = [tb[i] for i in rb]
                 e_ = np.array([ea, eb]).T
                 ABS.reset()
-                g = W.symgrid((base_v, e_, None), tag="cf", geometry="vertices")
+                g = W.symgrid((base_v, e_, [0, 1]), tag="cf", geometry="vertices")
                 V = g._vertices
                 A, Bv = 1, 2  # the shared edge's global vertices
                 loc = [[el_.index(A), el_.index(Bv)] for el_ in (ea, eb)]
@@ -81,10 +83,10 @@ def run(ctx):
                     v0, v1, v2 = [[V[d_, el_[i]] for d_ in range(3)] for i in range(3)]
                     Nn.append(cross([v1[d_] - v0[d_] for d_ in range(3)], [v2[d_] - v0[d_] for d_ in range(3)]))
                 NN = [dot(n_, n_) for n_ in Nn]
-                name = "%s%s-%s" % ("f" if both_flipped else "", "".join(map(str, ra)), "".join(map(str, rb)))
-                params = {"ea": ea, "eb": eb}
+                name = "%s%s-%s%s" % ("f" if both_flipped else "", "".join(map(str, ra)), "".join(map(str, rb)), "" if swapped is None else "/swapped-normals-on-one-side")
+                params = {"ea": ea, "eb": eb, "swapped": swapped}
                 # P1
-                sp = b.function_space(g, "P", 1, include_boundary_dofs=True)
+                sp = b.function_space(g, "P", 1, include_boundary_dofs=True, **skw)
                 vals = [sp.evaluate(el, pts[el]) for el in range(2)]  # (1, 3, 1)
                 cl = []
                 for dof in range(sp.global_dof_count):
@@ -96,10 +98,10 @@ def run(ctx):
                                 acc = acc + vals[el][0, i, 0]  # space.evaluate already applies the local multipliers
                         side.append(acc)
                     cl.append(eq_formula(side[0], side[1]))
-                ctx.prove("i/P1/%s" % name, z3.And(*cl), [], family="conformity", params=dict(params, kind="P1"), abs_cons=False, group="i-P1")
+                ctx.prove("i/P1/%s" % name, z3.And(*cl), [], family=fam_, params=dict(params, kind="P1"), abs_cons=False, group="i-P1" + ("" if swapped is None else "-swapped"))
                 # RWG / SNC
                 for kind in ("RWG", "SNC"):
-                    sp = b.function_space(g, kind, 0, include_boundary_dofs=True)
+                    sp = b.function_space(g, kind, 0, include_boundary_dofs=True, **skw)
                     gd = g.data()
                     cl = []
                     for dof in range(sp.global_dof_count):
@@ -123,8 +125,8 @@ def run(ctx):
                             inner = side  # the dof of the shared edge
                     names = ABS.atoms_in(cl)
                     hy = [a_ > 0 for a_ in ABS.sqrt_args(names)]
-                    ctx.prove("i/%s/%s" % (kind, name), z3.And(*cl), hy, family="conformity", params=dict(params, kind=kind), abs_cons="cone", group="i-" + kind)
-                    if nconf in (0, 4, 11):
+                    ctx.prove("i/%s/%s" % (kind, name), z3.And(*cl), hy, family=fam_, params=dict(params, kind=kind), abs_cons="cone", group="i-" + kind + ("" if swapped is None else "-swapped"))
+                    if nconf in (0, 4, 11) and swapped is None:
                         # lemma for (iii'): with ARBITRARY multipliers m0, m1 on the two local functions of the shared edge the
                         # component is continuous iff m0 == -m1 (orientation-consistent pair) - this reduces conformity of any
                         # constructed space to a sign condition on its multiplier table
@@ -440,6 +442,27 @@ def concrete(family, params):
                 if gap > worst:
                     worst, det = gap, kind
         return {"gap": worst if worst > 1e-10 else 0.0, "jump": worst, "key": "conformity/%s" % (det if worst > 1e-10 else "")}
+    if family == "conformity_swapped":
+        v, e, d = W.mesh("T7")
+        g = b.Grid(np.asarray(v, dtype=float) * np.array([[1.0], [1.2], [0.8]]), np.asarray(e), np.asarray(d, dtype="uint32"))
+        kind = {"P1": "P", "RWG": "RWG", "SNC": "SNC"}[params["kind"]]
+        sp = b.function_space(g, kind, 1 if kind == "P" else 0, include_boundary_dofs=True, swapped_normals=[1])
+        gf = b.GridFunction(sp, coefficients=rng.rand(sp.global_dof_count))
+        worst = 0.0
+        for ed in range(g.number_of_edges):
+            ne = [int(x) for x in g.edge_neighbors[ed]]
+            if len(ne) != 2:
+                continue
+            A, Bv = [int(x) for x in g.edges[:, ed]]
+            vals = []
+            for el in ne:
+                la, lb = list(g.elements[:, el]).index(A), list(g.elements[:, el]).index(Bv)
+                p = 0.3 * np.array(REF[la], dtype=float) + 0.7 * np.array(REF[lb], dtype=float)
+                f = gf.evaluate(el, p.reshape(2, 1))[:, 0]
+                t = g.vertices[:, Bv] - g.vertices[:, A]
+                vals.append(f[0] if kind == "P" else (f.dot(np.cross(t, g.normals[el])) if kind == "RWG" else f.dot(t)))
+            worst = max(worst, abs(vals[0] - vals[1]))
+        return {"gap": worst if worst > 1e-10 else 0.0, "jump": worst, "key": "conformity/%s/partial-swapped-normals" % params["kind"]}
     if family == "bc_conformity":
         v, e, d = W.mesh(params["mesh"])
         g = b.Grid(np.asarray(v, dtype=float) * np.array([[1.0], [1.2], [0.8]]), np.asarray(e))
